@@ -118,6 +118,7 @@ class QHooks(OpHooks):
         OpHooks.__init__(self)
         self.X = SpaceV('X', 'R')
         self.leaves = {}
+        self.unknown_lipschitz = set()   # leaves that declare no bound (nan)
 
     def leaf(self, I, name, q=None):
         if name in self.leaves:
@@ -146,6 +147,8 @@ class QHooks(OpHooks):
         if name == 'convex_conj':
             return self.leaf(I, nm + '*', q.conj())
         if name == 'grad_lipschitz':
+            if nm in self.unknown_lipschitz:
+                return Opaque('np.nan')
             return q.lipschitz()
         if name == 'translated':
             dc, m = I.model.lookup(I.model.get('Functional'), 'translated')
